@@ -17,11 +17,15 @@
 (*           N0 digit zero   N1 a digit 1-9   MINUS PLUS DOT EXP (e / E)   *)
 (*           LIT one of the words true / false / null                      *)
 (*           CTRL a raw control character (< 0x20)                         *)
+(*           PRE an ordinary character of the Unicode "prepend" class,     *)
+(*               which forms one grapheme cluster with whatever FOLLOWS it *)
+(*               (to JSON it is a character like any other; a scanner that *)
+(*               counts columns by clusters must not lose the next byte)   *)
 (*           BADUTF a byte sequence that is not valid UTF-8                *)
 (***************************************************************************)
 EXTENDS Integers, Sequences, FiniteSets, TLC
 
-AllClasses == {"LB", "RB", "LK", "RK", "COMMA", "COLON", "DQ", "BS", "SP", "NLWS", "CH", "ESCL", "U4", "U2",
+AllClasses == {"LB", "RB", "LK", "RK", "COMMA", "COLON", "DQ", "BS", "SP", "NLWS", "CH", "PRE", "ESCL", "U4", "U2",
                "N0", "N1", "MINUS", "PLUS", "DOT", "EXP", "LIT", "CTRL", "BADUTF"}
 
 WSC == {"SP", "NLWS"}
@@ -41,7 +45,7 @@ NumModes == {"minus", "zero", "int", "dot", "frac", "e", "esign", "exp"}
 NumDone  == {"zero", "int", "frac", "exp"}      \* number modes in which the number may end
 
 \* characters allowed unescaped inside a string
-PlainInString == {"LB", "RB", "LK", "RK", "COMMA", "COLON", "SP", "CH", "ESCL", "U4", "U2",
+PlainInString == {"LB", "RB", "LK", "RK", "COMMA", "COLON", "SP", "CH", "PRE", "ESCL", "U4", "U2",
                   "N0", "N1", "MINUS", "PLUS", "DOT", "EXP", "LIT"}
 
 RECURSIVE Feed(_, _)
